@@ -195,6 +195,21 @@ def general_queries(t):
         "Select(ds, lambda e: (Select(SelectMany(e.jets, lambda e: e.tracks), lambda t: t.pt + e.met), "
         "(lambda a: a)(e.met), Select(SelectMany(e.jets, lambda e: e.tracks), lambda t: t.pt - e.met)))",
     ]
+    # THREE nested lambdas re-using one parameter name, the middle one's parameter used after the
+    # innermost lambda, under a lambda that goes through make_args_unique (fused, or called)
+    # (seed C02_g: the renaming helper un-hid the middle binder too early)
+    extra += [
+        "Select(Select(ds, lambda e: e), lambda j: Select(j.jets, lambda j: "
+        "(Count(Select(j.tracks, lambda j: j.pt)), j.pt)))",
+        "Select(ds, lambda e: (lambda j: Select(j.jets, lambda j: "
+        "(Count(Where(j.tracks, lambda j: j.pt > 0)), j.pt, j.eta)))(e))",
+        "Select(Select(ds, lambda e: e), lambda j: Select(j.jets, lambda j: "
+        "Select(Select(j.tracks, lambda j: j.pt), lambda t: t + j.pt)))",
+        "Where(Select(ds, lambda e: e), lambda j: Count(Where(j.jets, lambda j: "
+        "Count(Where(j.tracks, lambda j: j.pt > 0)) + j.pt > 0)) + j.met > 0)",
+        "SelectMany(Select(ds, lambda e: e), lambda j: Select(j.jets, lambda j: "
+        "(Count(Select(j.tracks, lambda j: j.pt)), j.pt)))",
+    ]
     out += [(s, "hand") for s in extra]
     out += packaging_chains()
     # random deep queries: nested operators, closures, called lambdas, packaging + projection,
